@@ -86,7 +86,7 @@ extern "C" void harness_c15_define_ctor() {
 extern "C" void harness_c15_dash_d_ctor() {
   int k = nondet_int();      // length of the name part
   int d = nondet_int();      // length of the value part
-  ASSUME(k >= 0 && d >= 0 && k + d <= LMAX);
+  ASSUME(k >= 0 && k <= LMAX && d >= 0 && d <= LMAX && k + d <= LMAX);
   char b1[LMAX + 1], b2[LMAX + 1];
   FILL_SYMBOLIC(b1, LMAX, k, pick_def_char);
   FILL_SYMBOLIC(b2, LMAX, d, pick_def_char);
